@@ -175,9 +175,7 @@ class Engine:
                 import pymoca.backends.xml.generator as X
 
                 return "ok", canon.digest(X.generate(tree, op["class"]))
-        except RecursionError:
-            raise
-        except Exception as e:
+        except Exception as e:  # incl. RecursionError: endless lookups are an outcome of the code under test too
             return "fail", type(e).__name__
         raise ValueError(op)
 
